@@ -614,6 +614,44 @@ fn handle(st: &mut State, line: &str) -> String {
             };
             format!("ok\t{}\t{v}\t{}", fmt_circuit(&c), raw.join(","))
         }
+        "lit" => {
+            // lit u <n> <suffix> <against type>   | lit s <n> <suffix> <against type> | lit r <min> <max> <suffix> <size>
+            // -> ok <accepted 0|1> <bits or ->   (type test + encoding of a programmatic Literal)
+            let prg = garble_lang::check("pub fn main(x: u8) -> u8 { x }").unwrap();
+            let prim = |t: &str| -> garble_lang::ast::Type {
+                match t {
+                    "bool" => garble_lang::ast::Type::Bool,
+                    "i8" | "i16" | "i32" | "i64" => garble_lang::ast::Type::Signed(signed_ty(t)),
+                    _ => garble_lang::ast::Type::Unsigned(unsigned_ty(t)),
+                }
+            };
+            let (lit, ty) = match f[1] {
+                "u" => (Literal::NumUnsigned(f[2].parse().unwrap(), unsigned_ty(f[3])), prim(f[4])),
+                "s" => (Literal::NumSigned(f[2].parse().unwrap(), signed_ty(f[3])), prim(f[4])),
+                "r" => (
+                    Literal::Range(f[2].parse().unwrap(), f[3].parse().unwrap(), unsigned_ty(f[4])),
+                    garble_lang::ast::Type::Array(Box::new(prim(f[4])), f[5].parse().unwrap()),
+                ),
+                _ => panic!("bad lit request"),
+            };
+            let accepted = lit.is_of_type(&prg, &ty);
+            let bits = if accepted { fmt_bits(&lit.as_bits(&prg, &HashMap::new())) } else { "-".to_string() };
+            format!("ok\t{}\t{bits}", accepted as u8)
+        }
+        "dec" => {
+            // dec <type> <bits> -> from_unwrapped_bits
+            let prg = garble_lang::check("pub fn main(x: u8) -> u8 { x }").unwrap();
+            let ty = match f[1] {
+                "bool" => garble_lang::ast::Type::Bool,
+                "i8" | "i16" | "i32" | "i64" => garble_lang::ast::Type::Signed(signed_ty(f[1])),
+                t => garble_lang::ast::Type::Unsigned(unsigned_ty(t)),
+            };
+            let bits: Vec<bool> = f[2].chars().map(|c| c == '1').collect();
+            match Literal::from_unwrapped_bits(&prg, &ty, &bits, &HashMap::new()) {
+                Ok(l) => format!("ok\t{}", hex(&format!("{l}"))),
+                Err(e) => format!("err\t{}", hex(&format!("{e:?}"))),
+            }
+        }
         "sorter" => {
             // sorter <kind merge|sort> <bits> <elem_bits> <n> <ascending 0|1> : n elements of elem_bits input bits
             // each (one party per element), compared on their first <bits> bits.
